@@ -33,8 +33,15 @@ VF_REPO = os.path.abspath(os.environ.get("VF_REPO", "/repo"))
 # ------------------------------------------------------------------------------------------------
 # environment
 # ------------------------------------------------------------------------------------------------
+_PINNED = False
+
+
 def pin_environment():
     """Must run before numpy / felupe are imported (done by vf.run and by every worker)."""
+    global _PINNED
+    if _PINNED:
+        return
+    _PINNED = True
     os.environ.setdefault("PYTHONHASHSEED", "0")
     os.environ["FELUPE_VERBOSE"] = "false"
     os.environ.setdefault("FELUPE_VERIF", "1")
@@ -442,7 +449,7 @@ def run_property(prop, tier, seed, jobs=None, only_family=None):
                     new_buckets[b] = dict(replay=rp, cases=[], name=b)
 
     violations = []
-    if new_buckets and not errors:
+    if new_buckets:
         todo = []
         for b, e in list(new_buckets.items()):
             if "replay" in e:
@@ -512,7 +519,7 @@ def run_property(prop, tier, seed, jobs=None, only_family=None):
     if errors:
         for e in errors[:3]:
             print("HARNESS-ERROR:", e, file=sys.stderr)
-        return 2
+        return 1 if violations else 2
     if rejected > 0.5 * max(1, evaluations):
         print("HARNESS-ERROR: generator rejects more than half of its cases", file=sys.stderr)
         return 2
